@@ -2,7 +2,7 @@
 dynamic invocation of each hook kind, for every k, then PAIRS of faults (bounded); contract: extract returns a Stack, every
 injected exception that was actually raised is retrievable (by identity) from the error tree of the result, frames outward
 of the failure equal the fault-free extraction, and the result formats and summarises.
-Bounds: 5 scenarios; hooks {unwrap_stackitem, FrameIterator.__next__, elaborate_frame, contexts_active_in_frame,
+Bounds: 6 scenarios; hooks {unwrap_stackitem, FrameIterator.__next__, elaborate_frame, contexts_active_in_frame,
 elaborate_context, unwrap_context}; all single faults; pairs (k1<k2) of the same or different hook kinds, capped."""
 import sys, os, types, contextlib, threading, itertools
 sys.path.insert(0, os.path.dirname(__file__))
@@ -10,7 +10,7 @@ from _leg import Leg, THOROUGH
 import stackscope
 from stackscope import _extract as E, _customization as Cu
 
-leg = Leg("c05_faults", "5 scenarios x 6 hook kinds x every dynamic invocation index (single faults, exhaustive) + bounded pairs; "
+leg = Leg("c05_faults", "6 scenarios x 6 hook kinds x every dynamic invocation index (single faults, exhaustive) + bounded pairs; "
                         "non-trivial = fault actually raised; distinct by (scenario, hook, k)")
 
 
@@ -110,6 +110,34 @@ def scenario_nonstack():
     return 42, (lambda: None)
 
 
+class InnerMgr(Probe):
+    pass
+
+
+INNER_MGR = InnerMgr("unwrapped-to")
+
+
+@contextlib.contextmanager
+def unwrapped_cm():
+    with INNER_MGR:
+        yield
+
+
+@stackscope.unwrap_context_generator.register(unwrapped_cm.__wrapped__)
+def _unwrap_to_inner(frame, ctx):
+    return INNER_MGR          # "the real manager is the one inside": the generator-based wrapper is replaced
+
+
+def scenario_unwrapped_gcm():
+    # a generator-based manager whose registered unwrapper SUCCEEDS: fill_context replaces obj and resets inner_stack/children.
+    # Faults inside the nested extraction of the manager's generator are recorded in that inner stack first.
+    def user():
+        with unwrapped_cm():
+            yield
+    g = user(); next(g)
+    return g, (lambda: g.close())
+
+
 HOOKS = [("unwrap_stackitem", E, "unwrap_stackitem"), ("elaborate_frame", E, "elaborate_frame"), ("elaborate_context", E, "elaborate_context"),
          ("unwrap_context", E, "unwrap_context"), ("contexts_active_in_frame", E, "contexts_active_in_frame"),
          ("FrameIterator.__next__", Cu.FrameIterator, "__next__")]
@@ -199,7 +227,8 @@ def check_base(item):
 
 
 PAIR_CAP = 4000 if THOROUGH else 700
-for scen in (scenario_coro, scenario_thread, scenario_slice, scenario_custom, scenario_nonstack):
+SEEN_F11 = []
+for scen in (scenario_coro, scenario_thread, scenario_slice, scenario_custom, scenario_nonstack, scenario_unwrapped_gcm):
     item, cleanup = scen()
     try:
         _, inj0 = check(scen.__name__, item, None, None, {})
@@ -212,14 +241,21 @@ for scen in (scenario_coro, scenario_thread, scenario_slice, scenario_custom, sc
             msg, inj = check(scen.__name__, item, basepy, (label, k), {(label, k): exc})
             leg.case((scen.__name__, label, k), bool(inj.raised), sample=dict(scenario=scen.__name__, hook=label, k=k) if k == 2 and len(leg.samples) < 5 else None)
             if msg:
-                leg.violation(f"{scen.__name__}:{label}@{k}", msg)
+                # one canonical key for "an error recorded in an inner stack is thrown away when the unwrap succeeds" (finding F11);
+                # any other failure of this scenario keeps its own key
+                if scen is scenario_unwrapped_gcm and msg.startswith("raised but not retrievable"):
+                    if not SEEN_F11:
+                        SEEN_F11.append(1)
+                        leg.violation("inner-stack-error-discarded-by-successful-unwrap", f"{scen.__name__}:{label}@{k}: {msg}")
+                else:
+                    leg.violation(f"{scen.__name__}:{label}@{k}", msg)
         pairs = list(itertools.combinations(singles, 2))
         step = max(1, len(pairs) // PAIR_CAP)
         for (l1, k1), (l2, k2) in pairs[::step]:
             plan = {(l1, k1): Inj(f"{l1}@{k1}"), (l2, k2): Inj(f"{l2}@{k2}")}
             msg, inj = check(scen.__name__, item, basepy, ((l1, k1), (l2, k2)), plan)
             leg.case((scen.__name__, l1, k1, l2, k2), len(inj.raised) == 2)
-            if msg:
+            if msg and not (scen is scenario_unwrapped_gcm and msg.startswith("raised but not retrievable")):
                 leg.violation(f"{scen.__name__}:{l1}@{k1}+{l2}@{k2}", msg)
     finally:
         cleanup()
